@@ -232,10 +232,8 @@ def oracle_wrapped(Ls, Rs, opts):
 def prefix_policy(L, R, script):
     """URI -> prefix lxml prints: bindings of the left root, then those the right
     root contributes (Differ registers them globally), then InsertNamespace actions."""
-    pe = {}
-    for m in (L.nsmap, R.nsmap if R is not None else {}):
-        for k, v in m.items():
-            pe.setdefault(v, k)
+    from harness.differ_corr import penv_of
+    pe = penv_of(L.nsmap, R.nsmap if R is not None else {})
     for a in script:
         if type(a).__name__ == "InsertNamespace" and isinstance(a.prefix, str) and isinstance(a.uri, str):
             pe.setdefault(a.uri, a.prefix)
